@@ -11,6 +11,7 @@ use std::collections::BTreeMap;
 use vcore::canon::*;
 use vcore::gen;
 use vcore::model::*;
+use vcore::oracles::{c09_order, OrderInfo};
 use vcore::refcodec::*;
 use vcore::runner::*;
 use vcore::sched::{Schedule, Scripted};
@@ -564,9 +565,11 @@ pub struct C09Case {
     pub prog: Prog,
     /// further attributes_mut().add(group, name, value) calls
     pub adds: Vec<(u8, String, CValue)>,
+    /// also encode (and judge) once after this many additions
+    pub pre_encode_at: Option<usize>,
 }
 
-fn c09_add_name() -> BoxedStrategy<String> {
+pub fn c09_add_name() -> BoxedStrategy<String> {
     prop_oneof![
         4 => proptest::sample::select(vec!["printer-uri", "job-uri", "job-id"]).prop_map(|s| s.to_string()),
         // names that differ from the mandatory ones only in letter case are OTHER attributes
@@ -587,13 +590,14 @@ fn c09_case() -> BoxedStrategy<C09Case> {
                 prog.raw_with_uri = false;
                 prog.calls.clear();
             }
-            C09Case { prog, adds }
+            let pre_encode_at = if force % 2 == 0 && !adds.is_empty() { Some((force as usize * 7) % adds.len()) } else { None };
+            C09Case { prog, adds, pre_encode_at }
         })
         .boxed()
 }
 
 fn c09_json(c: &C09Case) -> Value {
-    json!({"prog": prog_json(&c.prog), "adds": c.adds.iter().map(|(g, n, v)| json!({"group": g, "name": n, "v": cvalue_json(v)})).collect::<Vec<_>>()})
+    json!({"prog": prog_json(&c.prog), "pre_encode_at": c.pre_encode_at, "adds": c.adds.iter().map(|(g, n, v)| json!({"group": g, "name": n, "v": cvalue_json(v)})).collect::<Vec<_>>()})
 }
 
 pub fn judge_c09(c: &C09Case, pr: &Probe, instances: usize) -> Judge {
@@ -608,45 +612,19 @@ pub fn judge_c09(c: &C09Case, pr: &Probe, instances: usize) -> Judge {
             }
             Err(e) => return Err(Fail::new(format!("C09/{}", panic_sig(&e)), format!("building panicked: {e}"))),
         };
-        for (g, n, v) in &c.adds {
+        for (i, (g, n, v)) in c.adds.iter().enumerate() {
+            if c.pre_encode_at == Some(i) {
+                // an encoding in the middle of the additions (logging, a size computation, an earlier
+                // send attempt): judged like any other, and it must not influence the later one
+                let early = req.to_bytes().to_vec();
+                c09_order(&early).map_err(|f| Fail::new(format!("{}/early-encoding", f.sig), format!("encoding after {i} additions: {}; case={}", f.msg, abbreviate(&c09_json(c)))))?;
+            }
             req.attributes_mut().add(delim(*g), IppAttribute::new(n, to_ipp(v)));
         }
         pr.extra_eval(1);
         let bytes = req.to_bytes().to_vec();
-        let d = ref_decode(&bytes).map_err(|e| Fail::new("C09/undecodable", format!("reference decoder rejects the request: {} at {}", e.reason, e.offset)))?;
-        let fail = |sig: &str, m: String| Err(Fail::new(format!("C09/{sig}"), format!("{m}; case={}", abbreviate(&c09_json(c)))));
-        let first = match d.msg.groups.first() {
-            Some(g) => g,
-            None => return fail("no-groups", "no attribute group in the encoded message".to_string()),
-        };
-        if first.tag != 0x01 {
-            return fail("first-group", format!("first group delimiter is {:#04x}, not operation-attributes", first.tag));
-        }
-        let names: Vec<String> = first.attrs.iter().map(|a| String::from_utf8_lossy(&a.name).to_string()).collect();
+        let OrderInfo { names, pu, ju, ji } = c09_order(&bytes).map_err(|f| Fail::new(f.sig.clone(), format!("{}; case={}", f.msg, abbreviate(&c09_json(c)))))?;
         orders.insert(names.clone());
-        if names.first().map(|s| s.as_str()) != Some("attributes-charset") {
-            return fail("charset-not-first", format!("operation attributes start with {:?}", names.iter().take(4).collect::<Vec<_>>()));
-        }
-        if names.get(1).map(|s| s.as_str()) != Some("attributes-natural-language") {
-            return fail("language-not-second", format!("operation attributes start with {:?}", names.iter().take(4).collect::<Vec<_>>()));
-        }
-        // a target attribute counts as present when it is in ANY operation-attributes group on the wire
-        // (additions can only put it into the leading one; finding it elsewhere means it was misplaced)
-        let all_op: Vec<String> = d.msg.groups.iter().filter(|g| g.tag == 0x01).flat_map(|g| g.attrs.iter().map(|a| String::from_utf8_lossy(&a.name).to_string())).collect();
-        let has = |n: &str| all_op.iter().any(|x| x == n);
-        let (pu, ju, ji) = (has("printer-uri"), has("job-uri"), has("job-id"));
-        if d.msg.groups.iter().filter(|g| g.tag == 0x01).count() > 1 {
-            return fail("operation-group-split", format!("the message was built by additions only, but {} operation-attributes groups are on the wire", d.msg.groups.iter().filter(|g| g.tag == 0x01).count()));
-        }
-        if pu != ju {
-            let target = if pu { "printer-uri" } else { "job-uri" };
-            if names.get(2).map(|s| s.as_str()) != Some(target) {
-                return fail(&format!("{target}-not-third"), format!("{target} is the only target URI but the operation attributes are ordered {:?}", names.iter().take(6).collect::<Vec<_>>()));
-            }
-            if pu && ji && names.get(3).map(|s| s.as_str()) != Some("job-id") {
-                return fail("job-id-not-fourth", format!("printer-uri + job-id target but the operation attributes are ordered {:?}", names.iter().take(6).collect::<Vec<_>>()));
-            }
-        }
         if !reported_nt {
             reported_nt = true;
             if names.len() >= 5 && (pu || ju) {
@@ -679,15 +657,38 @@ pub fn run_c09(ctx: &Ctx) {
     let n = ctx.tier.pick(32, 64);
     let (shards, per) = ctx.tier.pick((16, 1500), (16, 15000));
     run_prop(ctx, "order", shards, per, c09_case, |c, p| judge_c09(c, p, n), c09_json);
+    ctx.append_rule(&format!(" Half of the programs also encode once in the middle of the additions (judged too). Plus {} (C09: additions only, no removals)", crate::edits::RULE));
+    let (shards, per) = ctx.tier.pick((16, 4000), (16, 80000));
+    crate::edits::run(ctx, crate::edits::Mode::C09, shards, per);
+    // messages that reached the encoder through Deserialize: needs the library's `serde` feature, so a
+    // second binary (chk-serde) explores them and this check absorbs what it found
+    ctx.append_rule(" Plus serde-loaded messages (second binary built with the serde feature): a constructor's message extended by 0-13 add() calls, serialised with serde_json and loaded again (whole message or bare IppAttributes; from_str or to_value/from_value), optionally extended by 0-4 further add() calls, then encoded and judged by the same order oracle, N instances each.");
+    match std::env::var("VERIF_CHK_SERDE") {
+        Err(_) => ctx.inconclusive("VERIF_CHK_SERDE not set (run through ./check): serde-loaded messages not explored"),
+        Ok(exe) => match std::process::Command::new(exe).arg("C09").arg("child").arg(ctx.tier.name()).output() {
+            Err(e) => ctx.inconclusive(&format!("spawn chk-serde: {e}")),
+            Ok(out) => {
+                let text = String::from_utf8_lossy(&out.stdout);
+                match text.lines().find(|l| l.starts_with("RESULTS ")).and_then(|l| serde_json::from_str::<Value>(&l[8..]).ok()) {
+                    Some(v) => ctx.import(&v),
+                    None => ctx.inconclusive(&format!("chk-serde gave no results (status {:?}): {}", out.status, String::from_utf8_lossy(&out.stderr).chars().take(300).collect::<String>())),
+                }
+            }
+        },
+    }
 }
 
 pub fn replay_c09(ctx: &Ctx, _sub: &str, case: &Value) -> Judge {
+    if let Some(r) = crate::edits::replay(ctx, case) {
+        return r;
+    }
     let prog = prog_from_json(case.get("prog").ok_or_else(|| Fail::new("bad-replay", "prog"))?).ok_or_else(|| Fail::new("bad-replay", "prog"))?;
     let mut adds = Vec::new();
     for a in case.get("adds").and_then(|a| a.as_array()).cloned().unwrap_or_default() {
         adds.push((a.get("group").and_then(|g| g.as_u64()).unwrap_or(1) as u8, a.get("name").and_then(|n| n.as_str()).unwrap_or("").to_string(), cvalue_from_json(a.get("v").unwrap_or(&Value::Null)).ok_or_else(|| Fail::new("bad-replay", "value"))?));
     }
-    judge_c09(&C09Case { prog, adds }, &Probe { ctx, counting: false }, 256)
+    let pre_encode_at = case.get("pre_encode_at").and_then(|x| x.as_u64()).map(|x| x as usize);
+    judge_c09(&C09Case { prog, adds, pre_encode_at }, &Probe { ctx, counting: false }, 256)
 }
 
 // ================================================================================================
